@@ -102,7 +102,7 @@ PROPS["C06"] = {
     ],
 }
 
-_ALLOUT = '{"ok", "http4xx", "http5xx", "refuse", "timeout"}'
+_ALLOUT = '{"ok", "http4xx", "http5xx", "refuse", "timeout", "eof"}'
 PROPS["C07"] = {
     "rule": "TLC generates health-checking scenarios for one endpoint over {SetBackend(outcome), Tick(d), Round, "
             "ProxyFailure}: a transition cover (one shortest scenario per reachable core state of HealthSched) for "
